@@ -353,6 +353,13 @@ std::vector<WorkItem>& corpus_items() {
 		const size_t CH = 48;
 		for (int kind : {0, 1, 2, 3, 5}) { size_t sp = fault_space(kind, text); for (size_t from = 0; from < sp; from += CH) items.push_back(WorkItem{f, kind, from, CH}); }
 	}
+	// every single-byte substitution (each position x the eleven values of FLIPS: NUL, 0xff, high bit, the reserved punctuation, blank, newline);
+	// after the other kinds, so that a budget too small for everything completes those first
+	for (size_t f = 0; f < files.size(); ++f) {
+		std::ifstream in(files[f], std::ios::binary); std::string text((std::istreambuf_iterator<char>(in)), std::istreambuf_iterator<char>());
+		const size_t CH4 = 48 * NFLIP; size_t sp = fault_space(4, text);
+		for (size_t from = 0; from < sp; from += CH4) items.push_back(WorkItem{f, 4, from, CH4});
+	}
 	return items;
 }
 
@@ -372,7 +379,9 @@ Plan plan_C13(Rng& r, const std::string& tier) {
 	if (idx < items.size()) {
 		// systematic part: the complete single-fault space (truncation, line faults, zero tails) of every shipped small text
 		const WorkItem& w = items[size_t(idx)];
-		p.steps.push_back(gen::mk(0, "tx_faults", {w.kind, long(w.from), long(w.cnt), 1, 31}, corpus_files()[w.file]));
+		// byte substitutions mostly give texts that still parse, and a BDD load / dump / reload costs tens of milliseconds: their complete
+		// enumeration goes to the parser and the explicit tree loader (every loader calls the same parser first); the other loaders get them sampled
+		p.steps.push_back(gen::mk(0, "tx_faults", {w.kind, long(w.from), long(w.cnt), 1, w.kind == 4 ? 3 : 31}, corpus_files()[w.file]));
 		return p;
 	}
 	// sampled part: generated descriptions; strict round trip, then the complete single-fault space of that text, then sampled flips / garbage / splices
